@@ -121,6 +121,8 @@ Inductive fault : Set :=
 | FNestedHostilePanic  (* ... with a value whose Error() panics with a value whose Error() panics AGAIN (or with itself):
                           fmt.Sprintf gives up on the nested panic and re-panics, so only a recover around the
                           formatting itself (PanicError.Error/String, since 5f07f22) keeps the second panic in *)
+| FPanicUnderTimeout   (* the service function panic while the ExecuteTimeout plugin (rpc/plugins/timeout) is installed:
+                          the plugin runs the rest of the invoke chain on a goroutine of its own *)
 | FInvokePluginPanic   (* an invoke plugin (Service.Use, NextInvokeHandler chain) panic *)
 | FIOPluginPanic       (* an IO plugin (Service.Use, NextIOHandler chain) panic *)
 | FMissingPanic        (* the missing-method handler panic *)
@@ -133,18 +135,19 @@ Inductive fault : Set :=
 | FOversizeResponse    (* a result too large for the transport to carry *)
 (* client side: a scripted peer answers a real client with ... *)
 | FBadPayload          (* a well-framed response whose Hprose payload is malformed *)
-| FProviderPanic.      (* reverse.Provider: the provided function panics in the client process *)
+| FProviderPanic       (* reverse.Provider: the provided function panics in the client process *)
+| FSubscriberPanic.    (* push.Prosumer: a subscriber callback panics in the client process *)
 
 Record cell : Set := { c_tr : transport; c_side : side; c_pool : bool; c_fault : fault }.
 
 Definition transports := [TMock; THttp; TFastHttp; TTcp; TUnix; TWebsocket; TUdp].
 Definition sides := [Server; Client].
 Definition pools := [false; true].
-Definition faults := [FServicePanic; FHostilePanic; FNestedHostilePanic; FInvokePluginPanic; FIOPluginPanic; FMissingPanic; FDecodeError;
+Definition faults := [FServicePanic; FHostilePanic; FNestedHostilePanic; FPanicUnderTimeout; FInvokePluginPanic; FIOPluginPanic; FMissingPanic; FDecodeError;
   FDecodePanic; FFrameShort; FFrameBadCrc; FFrameLength; FOversizeRequest; FOversizeResponse;
-  FBadPayload; FProviderPanic].
+  FBadPayload; FProviderPanic; FSubscriberPanic].
 
-(* the whole product: 7 transports x 2 sides x pool off/on x 15 fault classes = 420 *)
+(* the whole product: 7 transports x 2 sides x pool off/on x 17 fault classes = 476 *)
 Definition all_cells : list cell :=
   flat_map (fun tr => flat_map (fun sd => flat_map (fun p => map (fun f =>
     {| c_tr := tr; c_side := sd; c_pool := p; c_fault := f |}) faults) pools) sides) transports.
@@ -160,6 +163,7 @@ Definition side_eqb (a b : side) : bool :=
 Definition fault_eqb (a b : fault) : bool :=
   match a, b with
   | FServicePanic, FServicePanic | FHostilePanic, FHostilePanic | FNestedHostilePanic, FNestedHostilePanic
+  | FPanicUnderTimeout, FPanicUnderTimeout | FSubscriberPanic, FSubscriberPanic
   | FInvokePluginPanic, FInvokePluginPanic | FIOPluginPanic, FIOPluginPanic
   | FMissingPanic, FMissingPanic | FDecodeError, FDecodeError | FDecodePanic, FDecodePanic
   | FFrameShort, FFrameShort | FFrameBadCrc, FFrameBadCrc | FFrameLength, FFrameLength
@@ -187,19 +191,19 @@ Definition applicable (c : cell) : bool :=
   let tr := c_tr c in
   (if c_pool c then has_pool tr && side_eqb (c_side c) Server else true) &&
   match c_side c, c_fault c with
-  | Server, (FServicePanic | FHostilePanic | FNestedHostilePanic | FInvokePluginPanic | FIOPluginPanic | FMissingPanic | FDecodeError | FDecodePanic) => true
+  | Server, (FServicePanic | FHostilePanic | FNestedHostilePanic | FPanicUnderTimeout | FInvokePluginPanic | FIOPluginPanic | FMissingPanic | FDecodeError | FDecodePanic) => true
   | Server, FFrameShort => framed tr
   | Server, FFrameBadCrc => has_crc tr
   | Server, FFrameLength => has_wire tr           (* http/fasthttp: Content-Length larger than the body sent *)
   | Server, FOversizeRequest => true               (* MaxRequestLength exists for every handler *)
   | Server, FOversizeResponse => transport_eqb tr TUdp   (* only a datagram has a size limit below MaxInt32 *)
-  | Server, (FBadPayload | FProviderPanic) => false
+  | Server, (FBadPayload | FProviderPanic | FSubscriberPanic) => false
   | Client, FFrameShort => framed tr
   | Client, FFrameBadCrc => has_crc tr
   | Client, FFrameLength => has_wire tr
   | Client, FOversizeRequest => transport_eqb tr TUdp
   | Client, FBadPayload => has_wire tr
-  | Client, (FProviderPanic | FHostilePanic | FNestedHostilePanic) => true
+  | Client, (FProviderPanic | FHostilePanic | FNestedHostilePanic | FSubscriberPanic) => true
   | Client, _ => false
   end.
 
@@ -300,6 +304,14 @@ Definition behaviour_of (c : cell) : behaviour :=
   let p := pkg_of tr in
   match c_side c, c_fault c with
   | Server, (FServicePanic | FHostilePanic | FNestedHostilePanic) => server_panic tr (c_pool c) "ext:reflect.Value.Call"
+  | Server, FPanicUnderTimeout =>
+      (* ExecuteTimeout.Handler: go func() { result, err := next(ctx, name, args); c <- ... }() — the service function
+         runs on that goroutine, not below Service.Process' recover *)
+      Panics {| g_root := RGo "plugins/timeout.ExecuteTimeout.Handler" "plugins/timeout.ExecuteTimeout.Handler$1";
+                g_chain := [("plugins/timeout.ExecuteTimeout.Handler$1", "dyn:core.NextInvokeHandler");
+                            ("core.Service.Execute", "ext:reflect.Value.Call")];
+                g_site := "ext:reflect.Value.Call";
+                g_needs := [("core.Service.Process$1", "dyn:core.NextInvokeHandler")] |}
   | Server, FMissingPanic => server_panic tr (c_pool c) "dyn:core.missingMethod"
   | Server, FInvokePluginPanic => server_panic tr (c_pool c) "dyn:core.NextInvokeHandler"
   | Server, FIOPluginPanic => server_panic tr (c_pool c) "dyn:core.NextIOHandler"
@@ -356,6 +368,12 @@ Definition behaviour_of (c : cell) : behaviour :=
                             ("plugins/reverse.Provider.process", "dyn:core.NextInvokeHandler");
                             ("plugins/reverse.Provider.Execute", "ext:reflect.Value.Call")];
                 g_site := "ext:reflect.Value.Call"; g_needs := [] |}
+  | Client, FSubscriberPanic =>
+      (* Prosumer.message: go p.dispatch(topics); dispatch -> p.call(callback, message) -> callback(...) *)
+      Panics {| g_root := RGo "plugins/push.Prosumer.message" "plugins/push.Prosumer.dispatch";
+                g_chain := [("plugins/push.Prosumer.dispatch", "plugins/push.Prosumer.call");
+                            ("plugins/push.Prosumer.call", "?callback")];
+                g_site := "?callback"; g_needs := [] |}
   | _, _ => ErrorPath (Broken "not applicable")
   end.
 
@@ -423,7 +441,15 @@ Definition scope_of (f : string) : option scope :=
   if existsb (String.eqb b) [
        "core.Service.Process";               (* err = NewPanicError(p): encoded as the call's error *)
        "core.Service.Handle";
-       "core.PanicError.Error"; "core.PanicError.String";   (* falls back to the value's type name: still that call's error text *)
+       "core.PanicError.Error"; "core.PanicError.String";
+       (* plugins that turn a panic of the rest of the chain into the call's error (client or service side) *)
+       "plugins/circuitbreaker.CircuitBreaker.IOHandler"; "plugins/cluster.Cluster.Handler";
+       "plugins/cluster.Forking"; "plugins/cluster.Broadcast";
+       "plugins/loadbalance.NginxRoundRobinLoadBalance.Handler"; "plugins/loadbalance.WeightedLeastActiveLoadBalance.Handler";
+       "plugins/loadbalance.WeightedRandomLoadBalance.Handler";
+       "plugins/log.Log.IOHandler"; "plugins/log.Log.InvokeHandler";
+       "plugins/timeout.ExecuteTimeout.Handler";     (* (if it recovers) the panic becomes the result sent on the channel *)
+       "plugins/push.Prosumer.dispatch"; "plugins/push.Prosumer.call";   (* (if they recover) that one message's delivery *)   (* falls back to the value's type name: still that call's error text *)
        "plugins/reverse.Provider.process";   (* returnValue with the error text *)
        "mock.Transport.Transport";
        "http.Handler.ServeHTTP"; "http.Handler.ServeFastHTTP"; "mock.Handler.Handler"; "mock.agent.Handler"
@@ -616,7 +642,18 @@ Definition known_goroutines : list (string * string) := [
   ("http/fasthttp.Transport.Transport", "http/fasthttp.Transport.Transport$2");   (* done <- FastHTTPClient.Do / DoDeadline *)
   ("http/fasthttp.Transport.Transport", "http/fasthttp.Transport.Transport$3");   (* <-done; ReleaseRequest; ReleaseResponse *)
   ("plugins/reverse.Provider.dispatch", "plugins/reverse.Provider.dispatch$1");
-  ("plugins/reverse.Provider.Listen", "plugins/reverse.Provider.dispatch")
+  ("plugins/reverse.Provider.Listen", "plugins/reverse.Provider.dispatch");
+  (* the rest of rpc/core/client.go and of the standard plugins *)
+  ("core.Client.Abort", "core.Client.Abort$1");                                   (* transport.Abort() per transport *)
+  ("plugins/cluster.Forking", "plugins/cluster.Forking$1");                       (* one attempt per URL, client side *)
+  ("plugins/cluster.Broadcast", "plugins/cluster.Broadcast$1");
+  ("plugins/oneway.Oneway.Handler", "plugins/oneway.Oneway.Handler$1");           (* the detached rest of the chain *)
+  ("plugins/push.Broker.send", "plugins/push.Broker.doHeartBeat");
+  ("plugins/push.Broker.timeout", "plugins/push.Broker.doHeartBeat");
+  ("plugins/push.Prosumer.message", "plugins/push.Prosumer.dispatch");            (* subscriber callbacks *)
+  ("plugins/push.Prosumer.Subscribe", "plugins/push.Prosumer.message");           (* long-poll loop *)
+  ("plugins/reverse.Caller.begin$2", "plugins/reverse.Caller.begin$2$1");         (* heartbeat timer *)
+  ("plugins/timeout.ExecuteTimeout.Handler", "plugins/timeout.ExecuteTimeout.Handler$1")   (* the rest of the invoke chain *)
 ].
 
 Definition entry_accounted (e : entry) : bool :=
@@ -665,7 +702,17 @@ Definition unprotected_goroutines : list (string * string) := [
   ("http/fasthttp.Transport.Transport", "http/fasthttp.Transport.Transport$2");
   ("http/fasthttp.Transport.Transport", "http/fasthttp.Transport.Transport$3");
   ("plugins/reverse.Provider.dispatch", "plugins/reverse.Provider.dispatch$1");  (* runs only Provider.process, which recovers itself *)
-  ("plugins/reverse.Provider.Listen", "plugins/reverse.Provider.dispatch")       (* runs proxy.end and the OnError callback *)
+  ("plugins/reverse.Provider.Listen", "plugins/reverse.Provider.dispatch");      (* runs proxy.end and the OnError callback *)
+  (* no user FUNCTION is reachable from these (table: no Runs entry; C11_user_code_goroutines_accounted): timers, a
+     long-poll loop and Abort of the transports; they call event hooks (OnError, OnUnsubscribe, OnClose) at most *)
+  ("core.Client.Abort", "core.Client.Abort$1");
+  ("plugins/push.Broker.send", "plugins/push.Broker.doHeartBeat");
+  ("plugins/push.Broker.timeout", "plugins/push.Broker.doHeartBeat");
+  ("plugins/push.Prosumer.Subscribe", "plugins/push.Prosumer.message");
+  ("plugins/reverse.Caller.begin$2", "plugins/reverse.Caller.begin$2$1");
+  (* these DO run user functions without a recover of their own *)
+  ("plugins/oneway.Oneway.Handler", "plugins/oneway.Oneway.Handler$1");          (* see client_chain_goroutines *)
+  ("plugins/push.Prosumer.message", "plugins/push.Prosumer.dispatch")            (* fault class FSubscriberPanic: stopped in Prosumer.call *)
 ].
 
 Definition unprotected (g : string * string) : bool := existsb (goroutine_eqb g) unprotected_goroutines.
@@ -690,6 +737,44 @@ Definition on_unprotected_goroutine (c : cell) : bool :=
   | Panics g => match g_root g with RGo encl target => unprotected (encl, target) | _ => false end
   | ErrorPath _ => false
   end.
+
+(* ---- goroutines that run user functions ---------------------------------------------- *)
+(* The table marks (Runs) every goroutine from which a user-supplied function can be reached:
+   next(ctx, ...) of a plugin, a provided function, a subscriber callback, a service function.
+   Such a goroutine is never harmless by itself.  It must
+     - have an effective recover on its entry function, or
+     - be the goroutine of some fault cell of the model (then C11_contained / the refuted cells
+       say what a panic there does), or
+     - be listed in [client_chain_goroutines]: goroutines that run the rest of a CLIENT's
+       invoke chain (client plugins, client codec, transport call).  The property names no
+       fault class that raises a panic there (malformed responses and oversized requests are
+       errors of the codec and the transports, see the bad-payload / frame / oversize cells,
+       which the harness also runs through the Oneway plugin); a panic of a user's own client
+       plugin on that goroutine WOULD end the process. *)
+Definition runs_user_function (t : tbl) (f : string) : bool :=
+  existsb (fun e => match e with Runs f' _ => String.eqb f' f | _ => false end) t.
+
+Definition client_chain_goroutines : list string := ["plugins/oneway.Oneway.Handler$1"].
+
+Definition cell_root_target (c : cell) : option string :=
+  match behaviour_of c with
+  | Panics g => match g_root g with RGo _ target => Some target | _ => None end
+  | ErrorPath _ => None
+  end.
+
+Definition modelled_goroutine (f : string) : bool :=
+  existsb (fun c => applicable c && match cell_root_target c with Some tg => String.eqb tg f | None => false end) all_cells.
+
+Definition user_goroutine_accounted (t : tbl) (e : entry) : bool :=
+  match e with
+  | Go _ _ _ tg =>
+      if runs_user_function t tg
+      then entry_protected_fn t tg || modelled_goroutine tg || existsb (String.eqb tg) client_chain_goroutines
+      else true
+  | _ => true
+  end.
+
+Definition user_goroutines_accounted (t : tbl) : bool := forallb (user_goroutine_accounted t) t.
 
 (* ---- tearing a client connection down ------------------------------------------------ *)
 (* conn.Exit(onExit, err): onExit unregisters the connection from Transport.conns (and cancels
@@ -733,6 +818,7 @@ Definition fault_name (f : fault) : string :=
   | FFrameShort => "frame-short" | FFrameBadCrc => "frame-bad-crc" | FFrameLength => "frame-length"
   | FOversizeRequest => "oversize-request" | FOversizeResponse => "oversize-response"
   | FBadPayload => "bad-payload" | FProviderPanic => "provider-panic"
+  | FPanicUnderTimeout => "panic-under-timeout-plugin" | FSubscriberPanic => "subscriber-panic"
   end.
 Definition verdict_name (v : verdict) : string :=
   match v with
@@ -753,15 +839,17 @@ Definition report (t : tbl) : list (string * string * string * list string) :=
                  stack_names t c)) cells.
 
 (* ------------------------------------------------------------------------------------ *)
-(* 9. the cells whose fault is NOT contained.  On the tree as repaired (6fc72b7 client loops
-      recover their own panics, 363c1a3 Service.Handle recovers around the IO chain, 7f6e14b UDP
-      messages too large for one datagram are refused) there is none: Props/C11.v proves
-      C11_contained for every applicable cell.  The list stays as the place where a future
-      refuted cell would be recorded (with a C11_contained_refuted_* theorem and a guarded
-      _partial theorem beside it). *)
+(* 9. the cells whose fault is NOT contained on the tree under check: each has a
+      C11_contained_refuted_* theorem in Props/C11.v, C11_contained_partial covers every other
+      cell.  When they are repaired in /repo the refutations stop compiling: empty the list,
+      delete those theorems and restate C11_contained_partial as the full C11_contained.
+      (Earlier escapes — decode / IO-plugin panics under mock and fasthttp, conn.Exit's recover
+      one frame too deep, UDP oversize, nested-hostile values — were repaired by 6fc72b7,
+      363c1a3, 7f6e14b, 5f07f22.) *)
 Definition mk (tr : transport) (sd : side) (p : bool) (f : fault) : cell :=
   {| c_tr := tr; c_side := sd; c_pool := p; c_fault := f |}.
 
+(* none on the tree as repaired (ExecuteTimeout's goroutine and Prosumer.call recover since the c11-fix-* commits) *)
 Definition known_escapes : list cell := [].
 
 Definition escaped (c : cell) : bool := existsb (cell_eqb c) known_escapes.
